@@ -248,9 +248,10 @@ def doRunPhysLat (s : EngStore) (inst : String) : Option (EngStore × String) :=
 def doRunPhysTimeout (s : EngStore) (inst : String) (k : Nat) : Option (EngStore × String) := do
     let i ← (s.insts.find? (·.1 == inst)).map (·.2)
     let p := desugRepeated i.pd.prog
-    if p.rels.any (·.lat) || p.rules.any (fun r => r.body.any fun | .agg _ => true | _ => false) then some (s, "na")
+    if p.rels.any (·.lat) then some (s, "na")
+    else if !Phys.aggPlanOk stdVars p (Phys.ixSetsOfA stdVars p) then some (s, "na-plan")
     else
-      let ix := Phys.ixSetsOf stdVars p
+      let ix := Phys.ixSetsOfA stdVars p
       let s0 : Phys.PSt := (List.range i.st.length).map fun r => { rows := (relSt i.st r).rows, full := [], idxs := [] }
       let back (ps : Phys.ProgStT) : Inst := { i with st := ps.st.map fun pr => { rows := pr.rows, idx := [] }, iters := ps.iters }
       match Phys.runTimeout (interp (kindOf i.pd)) stdVars p ix i.pd.order (fun c => c == k) defaultFuel s0 with
